@@ -1,7 +1,8 @@
 ---------------------------- MODULE BugQuery_Trace ----------------------------
 (* Judges what the real BugQuery did (drivers/c37_bugquery.py).
    {tid, i, ev:"render", expr, refused, raised, ps}       ps = params() of the search `expr` denotes
-   {tid, i, ev:"batch",  expr, base, max, raised, ps, bs} bs = params() of every batch of batches(base, max)
+   {tid, i, ev:"batch",  expr, base, max, raised, ps, bs, bs2} bs = params() of every batch of batches(base, max) taken when
+                                                         it is yielded, bs2 = of the same batches after the last one was yielded
    raised = name of an unexpected exception ("" if none)
    expr is a search expression (BugQuery.tla, "search expressions"); parameters are
    [k, n, key, v, iv, len] (len = length of the parameter's own urlencoding).                  *)
@@ -41,16 +42,22 @@ JudgeRender(e) ==
           ELSE IF e.refused THEN {"SpuriousRefusal"}
           ELSE JudgeParams(e.expr, d.q, e.ps)
 
+JudgeBatches(q, ps, bs, base, max) ==
+  LET axes == Axes(q)
+      fails == [a \in axes |-> BatchFails(ps, bs, a, base, max)]
+  IN IF axes = {}
+     THEN (IF Len(bs) = 1 /\ Core(bs[1]) = Core(ps) THEN {} ELSE {"Batch_NoAxisIdentity"})
+     ELSE IF \E a \in axes : fails[a] = {} THEN {}
+     ELSE fails[CHOOSE a \in axes : \A b \in axes : Cardinality(fails[a]) <= Cardinality(fails[b])]
+
 JudgeBatch(e) ==
   IF ~InDomain(e.expr) \/ ~Den(e.expr).ok THEN {"OutsideDomain"}
   ELSE IF e.raised # "" THEN {"Batch_Raised"}
   ELSE LET q == Den(e.expr).q
-           axes == Axes(q)
-           fails == [a \in axes |-> BatchFails(e.ps, e.bs, a, e.base, e.max)]
-       IN IF axes = {}
-          THEN (IF Len(e.bs) = 1 /\ Core(e.bs[1]) = Core(e.ps) THEN {} ELSE {"Batch_NoAxisIdentity"})
-          ELSE IF \E a \in axes : fails[a] = {} THEN {}
-          ELSE fails[CHOOSE a \in axes : \A b \in axes : Cardinality(fails[a]) <= Cardinality(fails[b])]
+           \* a batch is a value: it reads the same when yielded (bs) and once all batches were collected (bs2)
+           stable == Len(e.bs2) = Len(e.bs) /\ \A i \in DOMAIN e.bs : Core(e.bs2[i]) = Core(e.bs[i])
+       IN JudgeBatches(q, e.ps, e.bs, e.base, e.max)
+          \cup (IF stable THEN {} ELSE {"Batch_Stable"} \cup JudgeBatches(q, e.ps, e.bs2, e.base, e.max))
 
 Judge(e) == CASE e.ev = "render" -> JudgeRender(e) [] e.ev = "batch" -> JudgeBatch(e) [] OTHER -> {"UnknownEvent"}
 
